@@ -102,42 +102,57 @@ def k5_resolved(k, v, c1, c2, q):
     )
 
 
-_KERN = "self.context.font.kerning"
-_ARGS = "side1Classes, side2Classes"
-_KEPT = f"k5_kept({{k}}, {_KERN}[{{k}}], {_ARGS}, self.context.glyphSet)"
-_RES = f"k5_resolved({{k}}, {_KERN}[{{k}}], {_ARGS}, self.options.quantization)"
+def _pairs_contract(target, ctx, opts, params, requires, name=None):
+    """getKerningPairs exists twice (KernFeatureWriter.getKerningPairs and kernFeatureWriter2.get_kerning_pairs, same
+    loop); one contract text, instantiated with the expression that denotes the context / the options."""
+    KERN = f"{ctx}.font.kerning"
+    ARGS = "side1Classes, side2Classes"
+    KEPT = f"k5_kept({{k}}, {KERN}[{{k}}], {ARGS}, {ctx}.glyphSet)"
+    RES = f"k5_resolved({{k}}, {KERN}[{{k}}], {ARGS}, {opts}.quantization)"
+    return contract(
+        target,
+        name=name,
+        props=["C05"],
+        params=params,
+        returns=List(KP),
+        requires=requires + [f"{opts}.quantization >= 1"],  # as for quantize
+        ensures={
+            # nothing invented: every emitted pair is a surviving kerning item, resolved and quantised
+            "only": "all(any(" + KEPT.format(k="k") + " and result[n] == " + RES.format(k="k") + f" for k in {KERN}) for n in range(len(result)))",
+            # nothing lost: every surviving kerning item is emitted
+            "all": "all(implies(" + KEPT.format(k=f"list({KERN})[a]") + ", any(result[n] == " + RES.format(k=f"list({KERN})[a]") + f" for n in range(len(result)))) for a in range(len({KERN})))",
+            # exactly one pair per surviving item (no duplicates: a kerning item is applied once)
+            "count": f"len(result) <= len({KERN})",
+        },
+        canaries={"keeps-everything": f"len(result) == len({KERN})"},
+        locals={"result": List(KP)},
+        ghost_vars={"src": (List(INT), "[]"), "pos": (Dict(INT, INT), "{}")},
+        ghost={"result.append(KerningPair(side1, side2, value))": ["pos = {**pos, i: len(src)}", "src = src + [i]"]},
+        loops={
+            "for ((side1, side2), value) in kerning.items()": Loop(
+                index="i", seq="K",
+                invariants={
+                    "len": "len(src) == len(result) and len(src) <= i",
+                    "src": "all(0 <= src[n] and src[n] < i and " + KEPT.format(k="K[src[n]]") + " and result[n] == " + RES.format(k="K[src[n]]") + " for n in range(len(src)))",
+                    "cover": "all(implies(" + KEPT.format(k="K[a]") + ", a in pos and 0 <= pos[a] and pos[a] < len(src) and src[pos[a]] == a) for a in range(i))",
+                    # each item is emitted at most once, in kerning order
+                    "once": "all(src[n] < src[n + 1] for n in range(len(src) - 1))",
+                },
+            )
+        },
+    )
 
-contract(
-    "ufo2ft.featureWriters.kernFeatureWriter:KernFeatureWriter.getKerningPairs",
-    props=["C05"],
-    params={"self": Ref("KernWriter"), "side1Classes": Dict(STR, GCLS), "side2Classes": Dict(STR, GCLS)},
-    returns=List(KP),
-    requires=[
-        "not self.context.isVariable",  # static fonts; the designspace path is getVariableKerningPairs (C10)
-        "self.options.quantization >= 1",  # as for quantize
-    ],
-    ensures={
-        # nothing invented: every emitted pair is a surviving kerning item, resolved and quantised
-        "only": "all(any(" + _KEPT.format(k="k") + " and result[n] == " + _RES.format(k="k") + f" for k in {_KERN}) for n in range(len(result)))",
-        # nothing lost: every surviving kerning item is emitted
-        "all": "all(implies(" + _KEPT.format(k=f"list({_KERN})[a]") + ", any(result[n] == " + _RES.format(k=f"list({_KERN})[a]") + f" for n in range(len(result)))) for a in range(len({_KERN})))",
-    },
-    canaries={"keeps-everything": f"len(result) == len({_KERN})"},
-    locals={"result": List(KP)},
-    ghost_vars={"src": (List(INT), "[]"), "pos": (Dict(INT, INT), "{}")},
-    ghost={"result.append(KerningPair(side1, side2, value))": ["pos = {**pos, i: len(src)}", "src = src + [i]"]},
-    loops={
-        "for ((side1, side2), value) in kerning.items()": Loop(
-            index="i", seq="K",
-            invariants={
-                "len": "len(src) == len(result)",
-                "src": "all(0 <= src[n] and src[n] < i and " + _KEPT.format(k="K[src[n]]") + " and result[n] == " + _RES.format(k="K[src[n]]") + " for n in range(len(src)))",
-                "cover": "all(implies(" + _KEPT.format(k="K[a]") + ", a in pos and 0 <= pos[a] and pos[a] < len(src) and src[pos[a]] == a) for a in range(i))",
-                # each item is emitted at most once, in kerning order
-                "once": "all(implies(a < b, src[a] < src[b]) for a in range(len(src)) for b in range(len(src)))" if False else "all(src[n] < src[n + 1] for n in range(len(src) - 1))",
-            },
-        )
-    },
+
+_pairs_contract(
+    "ufo2ft.featureWriters.kernFeatureWriter:KernFeatureWriter.getKerningPairs", "self.context", "self.options",
+    {"self": Ref("KernWriter"), "side1Classes": Dict(STR, GCLS), "side2Classes": Dict(STR, GCLS)},
+    ["not self.context.isVariable"],  # static fonts; the designspace path is getVariableKerningPairs (C10)
+)
+# the copy in the alternative writer (module-level function; the caller extract_kerning_data tests context.isVariable)
+_pairs_contract(
+    "ufo2ft.featureWriters.kernFeatureWriter2:get_kerning_pairs", "context", "options",
+    {"context": Ref("KernCtx"), "options": Ref("KernOpts"), "side1Classes": Dict(STR, GCLS), "side2Classes": Dict(STR, GCLS)},
+    [],
 )
 
 
@@ -193,6 +208,8 @@ for _k, (_c1, _c2) in _KINDS.items():
         "KPair_" + _k,
         fields={"side1": GCLS if _c1 else STR, "side2": GCLS if _c2 else STR, "value": REAL},
         derived={"firstIsClass": _const_field(_c1), "secondIsClass": _const_field(_c2)},
+        # run time: the sides are plain str / tuple values (dict keys), not objects to be proxied
+        views={"side1": lambda o: o.side1, "side2": lambda o: o.side2},
         isa=("KerningPair",),
         notes=f"KerningPair of kind {_k}; firstIsClass/secondIsClass constants are proved on the real properties",
     )
@@ -208,32 +225,35 @@ for _k, (_c1, _c2) in _KINDS.items():
         )
     _g1 = "result.glyphs1.kind == 'class' and result.glyphs1.glyphclass == side1Classes[pair.side1]" if _c1 else "result.glyphs1.kind == 'name' and result.glyphs1.glyph == pair.side1"
     _g2 = "result.glyphs2.kind == 'class' and result.glyphs2.glyphclass == side2Classes[pair.side2]" if _c2 else "result.glyphs2.kind == 'name' and result.glyphs2.glyph == pair.side2"
-    contract(
-        f"{_KP_MOD}:KernFeatureWriter._makePairPosRule",
-        name=_k,
-        props=["C05"],
-        params={"self": Ref("KernWriter"), "pair": Ref("KPair_" + _k), "side1Classes": Dict(GCLS, Ref("GlyphClassDef")),
-                "side2Classes": Dict(GCLS, Ref("GlyphClassDef")), "rtl": BOOL},
-        returns=Ref("PairPosStatement"),
-        # every class side has a glyph class definition: makeAllGlyphClassDefinitions registers one for each class side of
-        # each pair before the rules are made (_makeSplitScriptKernLookups); the code indexes the maps (KeyError otherwise)
-        requires=(["pair.side1 in side1Classes"] if _c1 else []) + (["pair.side2 in side2Classes"] if _c2 else []),
-        ensures={
-            # glyph-class and class-glyph rules are enumerated (so that they land in the glyph-pair format and keep
-            # overriding class-class rules); glyph-glyph and class-class are not
-            "enumerated": f"result.enumerated == {_c1 != _c2}",
-            # the value goes to the x-advance of the FIRST glyph ...
-            "advance": "result.valuerecord1 is not None and result.valuerecord1.xAdvance == pair.value",
-            # ... and, in right-to-left rules only, also to its x-placement
-            "placement": "result.valuerecord1.xPlacement == (pair.value if rtl else None)",
-            "no-y": "result.valuerecord1.yPlacement == (0 if rtl else None) and result.valuerecord1.yAdvance == (0 if rtl else None)",
-            # the second glyph is never adjusted
-            "second-untouched": "result.valuerecord2 is None",
-            "first": _g1,
-            "second": _g2,
-        },
-        canaries={"never-placed": "result.valuerecord1.xPlacement is None"},
-    )
+    for _tgt, _self in ((f"{_KP_MOD}:KernFeatureWriter._makePairPosRule", {"self": Ref("KernWriter")}),
+                        # the copy in the alternative writer (module-level function, same body)
+                        (f"{_KP_MOD}2:make_pairpos_rule", {})):
+        contract(
+            _tgt,
+            name=_k,
+            props=["C05"],
+            params={**_self, "pair": Ref("KPair_" + _k), "side1Classes": Dict(GCLS, Ref("GlyphClassDef")),
+                    "side2Classes": Dict(GCLS, Ref("GlyphClassDef")), "rtl": BOOL},
+            returns=Ref("PairPosStatement"),
+            # every class side has a glyph class definition: makeAllGlyphClassDefinitions registers one for each class side of
+            # each pair before the rules are made (_makeSplitScriptKernLookups); the code indexes the maps (KeyError otherwise)
+            requires=(["pair.side1 in side1Classes"] if _c1 else []) + (["pair.side2 in side2Classes"] if _c2 else []),
+            ensures={
+                # glyph-class and class-glyph rules are enumerated (so that they land in the glyph-pair format and keep
+                # overriding class-class rules); glyph-glyph and class-class are not
+                "enumerated": f"result.enumerated == {_c1 != _c2}",
+                # the value goes to the x-advance of the FIRST glyph ...
+                "advance": "result.valuerecord1 is not None and result.valuerecord1.xAdvance == pair.value",
+                # ... and, in right-to-left rules only, also to its x-placement
+                "placement": "result.valuerecord1.xPlacement == (pair.value if rtl else None)",
+                "no-y": "result.valuerecord1.yPlacement == (0 if rtl else None) and result.valuerecord1.yAdvance == (0 if rtl else None)",
+                # the second glyph is never adjusted
+                "second-untouched": "result.valuerecord2 is None",
+                "first": _g1,
+                "second": _g2,
+            },
+            canaries={"never-placed": "result.valuerecord1.xPlacement is None"},
+        )
 
 
 # =====================================================================================================
@@ -371,6 +391,18 @@ CONTRACTS["ufo2ft.featureWriters.kernFeatureWriter:KernFeatureWriter.getKerningP
 )
 
 
+def _pairs2_build(case):
+    """the same inputs for the copy in kernFeatureWriter2 (module-level functions over a context namespace)"""
+    from ufo2ft.featureWriters import kernFeatureWriter2 as k2
+
+    w = _writer_for(case)
+    s1, s2 = k2.get_kerning_groups(w.context)
+    return {"context": w.context, "options": w.options, "side1Classes": s1, "side2Classes": s2}
+
+
+CONTRACTS["ufo2ft.featureWriters.kernFeatureWriter2:get_kerning_pairs"].runtime = Runtime(_pairs_cases, _pairs2_build)
+
+
 def _wrap_glyphs(o):
     from pyvc.rt import Proxy
 
@@ -403,6 +435,9 @@ def _rule_build(d):
 for _k in _KINDS:
     CONTRACTS[f"{_KP_MOD}:KernFeatureWriter._makePairPosRule#{_k}"].runtime = Runtime(
         _rule_cases(_k), _rule_build, call=lambda fn, a: fn(a["self"], a["pair"], a["side1Classes"], a["side2Classes"], a["rtl"])
+    )
+    CONTRACTS[f"{_KP_MOD}2:make_pairpos_rule#{_k}"].runtime = Runtime(
+        _rule_cases(_k), _rule_build, call=lambda fn, a: fn(a["pair"], a["side1Classes"], a["side2Classes"], a["rtl"])
     )
     for _prop in ("firstIsClass", "secondIsClass"):
         CONTRACTS[f"{_KP_MOD}:KerningPair.{_prop}#{_k}"].runtime = Runtime(
